@@ -175,6 +175,13 @@ func (t *Object) isSubType(target, sub Type) bool {
 		// implementation is T!, the implementation satisfies the interface.
 		return true
 	}
+	if st, ok := sub.(*NonNull); ok {
+		if _, isNN := target.(*NonNull); !isNN {
+			// The same holds when the base of the non-null is itself a
+			// sub-type of the target, [Dog!] for [Pet] for example.
+			return t.isSubType(target, st.Base)
+		}
+	}
 	switch tt := target.(type) {
 	case *Union:
 		for _, m := range tt.Members {
